@@ -26,6 +26,7 @@ LINES = [
     [2, ["server", "add", "--may=1", "p", "q"]], [2, ["p"]], [2, ["server", "-v"]], [2, ["--may", "--", "-v"]],
     [0, ["x", "--", "y", "z"]], [0, ["-v", "--opt"]], [1, ["x", "--mul", "a", "--zz"]], [2, ["server", "--", "--may"]],
     [0, ["--", "--opt"]], [1, ["--", "x", "y", "--num"]],
+    [0, ["x y"]], [0, ["--opt", "v x"]], [0, ["--opt", "v", "x"]],       # different argv lists that join to the same text (C05-g)
     [3, ["-v", "x", "y"]], [3, ["--opt", "x", "y"]], [3, ["x"]], [4, ["server", "srv", "--may", "1", "p"]], [4, ["srv", "p"]], [4, ["--may"]],
 ]
 POOL = [[fi, 0, toks] for fi, toks in LINES] + [[fi, 1, toks] for fi, toks in LINES[:8] + LINES[16:18]]
@@ -38,10 +39,14 @@ def gen(rng, tier, info):
     for k in range(1, depth + 1):
         for seq in itertools.product(range(len(POOL)), repeat=k):
             cases.append({"reqs": [POOL[i] for i in seq]})
+    # the same histories of length 2 with ONE format object per format for the whole history (an application keeps its
+    # formats): whatever a parser remembers about "the same format, the same text" shows here (C05-g)
+    for seq in itertools.product(range(len(POOL)), repeat=2):
+        cases.append({"reqs": [POOL[i] for i in seq], "share": 1})
     n_ex = len(cases)
     for _ in range(nrand):
         k = rng.randint(depth + 1, 6)
-        cases.append({"reqs": [POOL[rng.randrange(len(POOL))] for _ in range(k)]})
+        cases.append({"reqs": [POOL[rng.randrange(len(POOL))] for _ in range(k)], "share": rng.randrange(2)})
     info["exhaustive"] = True
     info["distribution"] = {"pool": len(POOL), "exhaustive": n_ex, "random": nrand, "max_len_exhaustive": depth}
     return cases
@@ -52,7 +57,7 @@ def wire(c):
 
 
 def describe(c):
-    return "one parser: " + "; ".join("fmt#%d %s %r" % (r[0], "lenient" if r[1] else "strict", r[2]) for r in c["reqs"])
+    return ("one parser, one format object per format: " if c.get("share") else "one parser: ") + "; ".join("fmt#%d %s %r" % (r[0], "lenient" if r[1] else "strict", r[2]) for r in c["reqs"])
 
 
 def _fmt_vector(fmt):
@@ -66,11 +71,18 @@ def run_impl(c):
     from clikit.api.args.format import ArgsFormat
     shared = DefaultArgsParser()
     out, fresh_out, untouched = [], [], 1
+    kept = {}
     for fi, lenient, toks in c["reqs"]:
-        # a format object built for this request only (and dropped afterwards), as an application would
-        fmt = None
-        for lvl in FORMATS[fi]:
-            fmt = ArgsFormat([G.mk_element(e) for e in lvl], fmt)
+        # a format object built for this request only (and dropped afterwards) - or, with "share", one object per format
+        # for the whole history
+        if c.get("share") and fi in kept:
+            fmt = kept[fi]
+        else:
+            fmt = None
+            for lvl in FORMATS[fi]:
+                fmt = ArgsFormat([G.mk_element(e) for e in lvl], fmt)
+            if c.get("share"):
+                kept[fi] = fmt
         before = _fmt_vector(fmt)
         argv = ["script"] + list(toks)
         argv_before = list(argv)
@@ -115,4 +127,4 @@ def nontrivial_key(c, o):
 def shrink(c):
     r = c["reqs"]
     for i in range(len(r)):
-        yield {"reqs": r[:i] + r[i + 1:]}
+        yield {"reqs": r[:i] + r[i + 1:], "share": c.get("share", 0)}
